@@ -45,6 +45,10 @@ CHECKS = {
             "exploration, exhaustive over the stated permutation sub-spaces for UAS- and UAC-created dialogs; random sequences sampled; decides exactly-once, increasing CSeq order, release in the step the gap is filled, pass-through of non-matching requests and of the ACK, silence after guard drop, empty backlog, no overflow at u32::MAX",
             "trusts ref_reorder, tokio's paused clock, hook H3 (backlog size); single-threaded cooperative schedules only; the open finding (overlapping arrivals interleaved) is keyed by a narrow signature",
             "DESIGN.md 3/C10", "E-world"),
+    'C11': ("exhaustive enumeration of status codes 100..699 for dialog responses + proptest over dialog-creating INVITE/2xx pairs (0..4 Record-Route, tags, Contacts, display names) for both roles and sequences of created requests, partly from 4 OS threads; oracle = RFC 3261 section 12 reference model built from the wire texts only (ref_dialog)",
+            "exploration: all status codes exhaustive for the UAS response rules; dialog shapes and request sequences sampled; decides Call-ID, From/To URI+tag swap, Request-URI = remote target, Max-Forwards, Route = route set (reversed on the UAC), strictly increasing CSeq above the INVITE's, ACK reusing the INVITE's number (via the Session refresh flow), To-tag/Contact/Record-Route of responses",
+            "trusts ref_dialog, WireMsg; tags containing % are excluded by construction (two open findings); the CSeq counter is the only thing exercised with real threads",
+            "DESIGN.md 3/C11", "E-world"),
     'C12': ("exhaustive enumeration of ACK / PRACK arrival grids (+-1 ms around every retransmission instant, matching and non-matching CSeq/RAck) + proptest over races of application ops and network ops at shared instants with tokio select seeds, under a paused clock; oracle = RFC 3261 13.3.1.4 / RFC 3262 schedules and an admissible-winner model over the wire log",
             "exploration: accept_retransmit and reliable_provisional grids exhaustive; races sampled (1..3 app ops x 1..4 network ops over 9 instants, both orders at shared instants); decides exactly one final response, the winner among same-instant decisive events, CANCEL/BYE answered with their own Via/CSeq, 2xx retransmission T1 doubling to T2 until the matching ACK / 64*T1, reliable 1xx doubling until the matching PRACK",
             "trusts tokio's paused clock, hook H2, WireMsg, ref_tsx; give-up windows [64*T1, 64*T1+T2] and the total duration of reliable-1xx retransmission are not asserted",
@@ -57,6 +61,10 @@ CHECKS = {
             "exploration, exhaustive over the finite configuration product (datagram subsets x factory configs incl. registration order and connect failure x pre-existing connections x sip/sips x IPv4/IPv6 literal x port x pinning); sequences sampled so that earlier requests create the pre-existing connections",
             "trusts the mock transports/factories, ref_select, tokio paused clock; HashMap order handled by membership in the admissible set",
             "DESIGN.md 3/C14", "E-world"),
+    'C15': ("exhaustive enumeration of the drop-last-handle / inbound-message race (both orders, 32 s edge, 64..256 tokio select seeds) + proptest over handle clone/drop, message, peer-close, garbage and select histories on mock connections under a paused clock; oracle = connection lifecycle reference model",
+            "exploration: race sub-space exhaustive over its product x seeds; histories sampled with gaps on the 32 s edge and same-instant pairs; decides registered-while-referenced, exactly-once delivery while alive, revival by traffic, close 32 s after last use, immediate unregistration on peer close / framing error, no reuse of dead or inbound connections",
+            "trusts tokio's paused clock and seeded select order, the duplex-pipe mocks (EOF = close), hook H3 (managed transport count)",
+            "DESIGN.md 3/C15", "E-world"),
     'C17': ("exhaustive enumeration of the value grid (role x refresher parameter x Session-Expires / Min-SE / Expires / Min-Expires edge values x short refresh histories) + proptest over random u32 values and histories, real Initiator/Acceptor/Session/Registration under a paused clock with a scripted peer; oracle = timeline monitor (refresh strictly before last-refresh + SE; non-refresher BYE in [SE, SE+64 s]; REGISTER refresh before grant + L)",
             "exploration: grids enumerated completely, random histories sampled; decides no panic for any u32 value, refresh-before-expiry on both roles, interval restart on every refresh sent/received, BYE only after the full interval, registration refresh timing, Call-ID reuse and CSeq +1",
             "trusts tokio's paused clock (intervals above 67 000 000 s are only checked for establishment + a 120 s window because tokio's timer wheel cannot represent them), hook H2, WireMsg",
